@@ -49,10 +49,11 @@ type c31Case struct {
 	SnapOnClose bool
 	Wait        bool
 	Rows        int
+	ApplyMs     int // Store.ApplyTimeout as a deployment may set it (0: default)
 }
 
 func (c c31Case) String() string {
-	return fmt.Sprintf("kind=%s hold=%dms offset=%dms snapOnClose=%v wait=%v rows=%d", c.Kind, c.HoldMs, c.OffsetMs, c.SnapOnClose, c.Wait, c.Rows)
+	return fmt.Sprintf("kind=%s hold=%dms offset=%dms snapOnClose=%v wait=%v rows=%d applyTimeout=%dms", c.Kind, c.HoldMs, c.OffsetMs, c.SnapOnClose, c.Wait, c.Rows, c.ApplyMs)
 }
 
 func c31Gen(rt *rapid.T) c31Case {
@@ -93,6 +94,7 @@ func c31Gen(rt *rapid.T) c31Case {
 	}
 	c.SnapOnClose = rapid.Bool().Draw(rt, "snapOnClose")
 	c.Wait = rapid.Bool().Draw(rt, "wait")
+	c.ApplyMs = rapid.SampledFrom([]int{0, 0, 500, 2000, 30000}).Draw(rt, "applyTimeoutMs")
 	return c
 }
 
@@ -124,7 +126,7 @@ func (w *c31BlockingWriter) Write(p []byte) (int, error) {
 
 func TestVerif_C31_Close(t *testing.T) {
 	rec := vstat.New(t, "C31", "close",
-		"real single-node Store; gate holder kind in {binary backup into a blocking writer, compressed backup, white-box CAS, concurrent user snapshot} x hold d in {0,50,300,1000,3000 ms} or generated in 1.1-1.6 s, 2.4-3.7 s, now and then 5.0-5.8 s (thorough: up to 12.5 s) x Close(wait) offset (0, inside, just before release, after release) x snapshot-on-close x wait; non-trivial = the gate was still held when Close was called; distinct by (kind,hold,offset,flags)")
+		"real single-node Store; gate holder kind in {binary backup into a blocking writer, compressed backup, white-box CAS, concurrent user snapshot} x hold d in {0,50,300,1000,3000 ms} or generated in 1.1-1.6 s, 2.4-3.7 s, now and then 5.0-5.8 s (thorough: up to 12.5 s) x Close(wait) offset (0, inside, just before release, after release) x snapshot-on-close x wait x Store.ApplyTimeout {default, 0.5 s, 2 s, 30 s}; non-trivial = the gate was still held when Close was called; distinct by (kind,hold,offset,flags)")
 	rapid.Check(t, func(rt *rapid.T) {
 		defer g8bRecoverInfra(rec, t)
 		c := c31Gen(rt)
@@ -154,6 +156,13 @@ func TestVerif_C31_Close(t *testing.T) {
 		if _, _, err := g8bExec(s, true, stmts...); err != nil {
 			g8bInfra("setup write failed: " + err.Error())
 		}
+
+		// other timeouts of the deployment must not change the shutdown wait limit
+		// (set after the set-up write so that a small value cannot fail the set-up)
+		if c.ApplyMs > 0 {
+			s.ApplyTimeout = time.Duration(c.ApplyMs) * time.Millisecond
+		}
+		rec.Label(fmt.Sprintf("applyTimeout=%dms", c.ApplyMs))
 
 		held := make(chan struct{})
 		done := make(chan struct{})
@@ -226,7 +235,7 @@ func TestVerif_C31_Close(t *testing.T) {
 		mu.Unlock()
 
 		gateHeld := ownerAtClose != "" && (rel.IsZero() || closeCall.Before(rel))
-		rec.Case(gateHeld, fmt.Sprintf("%s/%d/%d/%v/%v", c.Kind, c.HoldMs, c.OffsetMs, c.SnapOnClose, c.Wait))
+		rec.Case(gateHeld, fmt.Sprintf("%s/%d/%d/%v/%v/%d", c.Kind, c.HoldMs, c.OffsetMs, c.SnapOnClose, c.Wait, c.ApplyMs))
 		rec.Label("kind=" + c.Kind)
 		switch {
 		case c.HoldMs < 1100:
